@@ -12,6 +12,7 @@ import NaijaVerif.Driver.Lex
 import NaijaVerif.Driver.Parse
 import NaijaVerif.Driver.Resolve
 import NaijaVerif.Driver.Run
+import NaijaVerif.Driver.Pipe
 import NaijaVerif.Driver.Plan
 import NaijaVerif.Driver.Mem
 import NaijaVerif.Driver.Depth
@@ -33,6 +34,7 @@ def main (args : List String) : IO UInt32 := do
   | ["parse"] => NaijaVerif.Driver.ParseD.main; return 0
   | ["resolve"] => NaijaVerif.Driver.ResolveD.main; return 0
   | ["run"] => NaijaVerif.Driver.RunD.main; return 0
+  | ["pipe"] => NaijaVerif.Driver.PipeD.main; return 0
   | ["plan"] => NaijaVerif.Driver.PlanD.main; return 0
   | ["mem"] => NaijaVerif.Driver.MemD.main; return 0
   | ["depth"] => NaijaVerif.Driver.DepthD.main; return 0
